@@ -865,6 +865,7 @@ pub fn faulted_step(&mut self, step: usize, op: &Op) -> Result<(), Violation> {
     }
     let r = catch_unwind(AssertUnwindSafe(|| self.exec(op)));
     let fired = world::disarm_fault();
+    self.track_pristine(op);
     let counts_after = world::counts();
     for c in 0..world::NCLASS {
         self.out.counters.push((world::CLASS_NAMES[c], counts_after[c] - counts_before[c]));
@@ -901,6 +902,7 @@ pub fn faulted_step(&mut self, step: usize, op: &Op) -> Result<(), Violation> {
         }
     }
     // ---- the injected panic unwound out of the operation
+    self.pristine = [false, false];
     self.out.count("faults_fired", 1);
     self.labels |= dump::L_FAULT_UNWOUND;
     let st = alloc::stats();
